@@ -252,6 +252,12 @@ def r1(ctx, modname, cases, mr):
             calls = [d for d, a, _ in c.calls]
             ctx.check("self._initialised_event.set" in calls, R, f"{gen}:initialised-event", m, c.node.pattern, "reaching the steady state sets _initialised_event", ", ".join(calls))
             ctx.check("self._heartbeat_manager.start" in calls, R, f"{gen}:heartbeat-start", m, c.node.pattern, "reaching the steady state starts the heartbeat", ", ".join(calls))
+            # init() returns as soon as the event is set: the frame that completes the handshake is applied to the model first
+            if proc is not None:
+                p_at = [x.lineno for d, a, x in c.calls if d == f"self.{proc}"]
+                s_at = [x.lineno for d, a, x in c.calls if d == "self._initialised_event.set"]
+                ok = bool(p_at) and bool(s_at) and max(p_at) < min(s_at)
+                ctx.check(ok, R, f"{gen}:model-complete-before-initialised", m, c.node.pattern, f"{proc}() runs before _initialised_event.set(): when init() returns True the model already shows the last frame of the handshake", f"{proc} at line(s) {p_at}, set() at line(s) {s_at}")
         cur = c.next_state[0] if c.next_state else cur
         seen_states.append(cur)
     # enum has the states used
